@@ -18,8 +18,7 @@ def hashChoice (refAbs : Bool) (h n : Int) : Int :=
   if refAbs then
     Int.tmod (h % 2147483648) n
   else
-    let p := Int.tmod (hashAsI32 h) n
-    if p < 0 then -p else p
+    if Int.tmod (wrap32 h) n < 0 then -(Int.tmod (wrap32 h) n) else Int.tmod (wrap32 h) n
 
 /-- Kafka's Java client: `Utils.toPositive(hash) % numPartitions`, i.e. `(hash & 0x7fffffff) % n` -/
 def javaChoice (h n : Int) : Int := (h % 2147483648) % n
